@@ -50,3 +50,11 @@ func (c *zzConn) Write(ctx context.Context, rpc *goatorepo.Rpc) error {
 	}
 	return nil
 }
+
+func zzHdr() *goatorepo.RequestHeader {
+	return &goatorepo.RequestHeader{Method: "/s/m", Source: "c", Destination: "s"}
+}
+
+func zzRespHdr() *goatorepo.RequestHeader {
+	return &goatorepo.RequestHeader{Method: "/s/m", Source: "s", Destination: "c"}
+}
